@@ -36,6 +36,7 @@ var (
 	fRaceLog = flag.String("verif.racelog", "", "race detector log prefix (C19)")
 	fTrace   = flag.Bool("verif.trace", false, "print the rendered trace in replay mode")
 	fNoMin   = flag.Bool("verif.nomin", false, "do not minimise")
+	fCensus  = flag.Bool("verif.census", false, "only count clause hits, report nothing")
 	fKeepGoing = flag.Bool("verif.keepgoing", false, "continue after a violation (collect all clauses)")
 )
 
@@ -231,10 +232,18 @@ func exploreMain(p *Property) {
 			sum.Infra = ep.Res.Msg
 			break
 		}
+		seenC := map[string]bool{}
 		for _, v := range ep.Viols {
 			if !p.owns(v.Clause) {
 				sum.Foreign[v.Clause]++
 			}
+			if !seenC[v.Clause] {
+				seenC[v.Clause] = true
+				sum.Extra["clause:"+v.Clause]++
+			}
+		}
+		if *fCensus {
+			continue
 		}
 		v := p.firstOwned(ep.Viols)
 		if v == nil {
